@@ -559,3 +559,15 @@ Proof.
   pose proof (HN n Hn) as Hnf. pose proof (TypingProofs.typed_programs E P rs n Hwt) as Hty.
   destruct (eval_program false P n rs); auto.
 Qed.
+
+(** * the evaluation of a stratified program is one well-defined result *)
+From Oal Require FuelProofs.
+
+Theorem stratified_result P rs :
+  stratified P rs = true ->
+  exists N r, r <> Fuel /\ forall n, N <= n -> eval_program false P n rs = r.
+Proof.
+  intros H. destruct (stratified_terminates P rs H) as [N HN].
+  exists N, (eval_program false P N rs). split; [apply HN, le_n|].
+  intros n Hn. apply (FuelProofs.eval_program_fuel_mono false P N n rs _ eq_refl (HN N (le_n _)) Hn).
+Qed.
